@@ -196,7 +196,7 @@ def run(chk):
         R.add("corpus:" + f.name, json.load(open(f))["prog"])
     for label, prog in fixed_programs():
         R.add(label, prog)
-    n = 220 if quick else 4000
+    n = 450 if quick else 5000
     progs = []
     for k in range(n):
         prog = G.Gen(rng).program()
@@ -206,7 +206,7 @@ def run(chk):
     stats = R.judge()
     # HTML level: unresolved names are plain text, resolved ones link to the page of the entity
     rows = 0
-    nhtml = 6 if quick else 60
+    nhtml = 10 if quick else 80
     for label, prog in fixed_programs() + [(f"random:{k}", progs[k]) for k in range(min(nhtml, len(progs)))]:
         nrows, seen, problems = I.html_check(prog, G.render_files(prog))
         rows += nrows
@@ -229,7 +229,7 @@ def has_unresolved_binding(prog):
     r, _ = I.observe(prog, files)
     if isinstance(r, str):
         return False
-    return any(d[0] == "SBindTarget" and e is None for obs in r[0].values() for _, d, e in obs)
+    return any(d[0] in ("SBindTarget", "SBindProto") and e is None for obs in r[0].values() for _, d, e in obs)
 
 
 def witness_unresolved_binding():
